@@ -31,7 +31,7 @@ Record basket := mkB {
   b_mmin : Z; b_mmax : Z; b_bmin : Z; b_bmax : Z; b_smin : Z; b_smax : Z;
   b_md : bool; b_bd : bool; b_sd : bool }.
 Record variant := mkV { v_burn_pre : bool; v_edit_keep : bool; v_upsert_skip : bool }.
-Definition history := list (Z * Z).          (* (unix time, amount registered at that time) *)
+Definition history := list (Z * Z).          (* (block time in unix nanoseconds, amount registered at that time) *)
 Record state := mkS { s_bk : basket; s_bal : Z -> Z -> Z; s_supply : Z;
                       s_hm : history; s_hb : history; s_hs : history }.
 
@@ -150,11 +150,14 @@ Fixpoint register (h : history) (t x : Z) : history :=
   | [] => [(t, x)]
   | (t', y) :: r => if t' =? t then (t', y + x) :: r else (t', y) :: register r t x
   end.
-(* GetLimitsPeriodXAmount: every entry from now - period on *)
+(* Block times are unix NANOSECONDS (history keys are sdk.FormatTimeBytes of the block time, which
+   carries nine sub-second digits); the limits period is in seconds. *)
+Definition NS : Z := 1000000000.
+(* GetLimitsPeriodXAmount: every entry from (now - period seconds) on, that instant included *)
 Definition period_sum (h : history) (now period : Z) : Z :=
-  zsum (map snd (filter (fun e => now - period <=? fst e) h)).
+  zsum (map snd (filter (fun e => now - period * NS <=? fst e) h)).
 Definition clear_old (h : history) (now period : Z) : history :=
-  filter (fun e => now - period <=? fst e) h.
+  filter (fun e => now - period * NS <=? fst e) h.
 
 (* ---------------------------------------------------------------- mint *)
 Fixpoint mint_value (ts : list token) (dep : coins) (acc : dec) : outcome dec :=
